@@ -260,10 +260,10 @@ class MapStringTransformation(StringValueTransformation):
         self, field: str | None, val: SigmaString
     ) -> (SigmaType | list[SigmaType]) | None:
         mapped = self.mapping.get(str(val), None)
-        if isinstance(mapped, str):
-            return SigmaString(mapped)
+        if isinstance(mapped, str):  # keep the string type (e.g. case-sensitive strings)
+            return val.__class__(mapped)
         elif isinstance(mapped, list):
-            return [SigmaString(item) for item in mapped]
+            return [val.__class__(item) for item in mapped]
         else:
             return None
 
